@@ -507,7 +507,9 @@ pub fn maybe_start_outside<R: Rng>(rng: &mut R, sc: &mut ScriptedCase, p: f64) {
 }
 
 pub fn rand_kt<R: Rng>(rng: &mut R) -> f64 {
-    [0., 0., 1e-6, 1e-3, 0.1, 0.5, 10., 1e6][rng.gen_range(0, 8)]
+    // (temperatures far below machine epsilon are temperatures all the same: with score gaps of
+    // 1e-16 or one denormal they still decide)
+    [0., 0., 1e-6, 1e-3, 0.1, 0.5, 10., 1e6, 1e-20, 1e-100, 1e-300, 5e-324, 1e300][rng.gen_range(0, 13)]
 }
 
 // ---------------------------------------------------------------------------------------
